@@ -385,7 +385,9 @@ func (st c28CtlStore) GetBalances(ctx context.Context, q ledgerstore.BalanceQuer
 	return c28VMStore{st.s}.GetBalances(ctx, q)
 }
 
-func (st c28CtlStore) Accounts() common.PaginatedResource[ledger.Account, any] { return c28Accounts{st.s} }
+func (st c28CtlStore) Accounts() common.PaginatedResource[ledger.Account, any] {
+	return c28Accounts{st.s}
+}
 
 type c28Accounts struct{ s *c28Script }
 
